@@ -286,6 +286,17 @@ def case_C11(seed):
                     viol.append((key, f"{nm}.edges_closeto({loc}, {r}, {max_elmt}) = {[(round(t[0], 6), t[1], t[2]) for t in ge]}, expected {[(round(t[0], 6), t[1], t[2]) for t in xe]}",
                                  {'graph': {str(k): [list(v[0]), v[1]] for k, v in g.items()}, 'scale': scale, 'loc': list(loc), 'radius': r, 'max_elmt': max_elmt}))
                 else:
+                    if use_latlon and not viol:
+                        # the distances / projections the query reports, against the independent 3-D reference (not the library's
+                        # own metric): 12 cm + 2e-6 relative, as in C14 - also for edges of tens of kilometres
+                        from rtc import geo_ref as G_
+                        for a_ in ge:
+                            rd_, rpi_, rti_ = G_.nearest_on_arc(tuple(loc[:2]), g[a_[1]][0], g[a_[2]][0])
+                            if abs(a_[0] - rd_) > 0.12 + 2e-6 * rd_ or G_.gc_distance(a_[3], rpi_) > 0.12 + 2e-6 * (rd_ + G_.gc_distance(g[a_[1]][0], g[a_[2]][0])):
+                                viol.append((f'C11:{nm}.edges_closeto-reports-a-wrong-distance-or-projection',
+                                             f"edge {a_[1], a_[2]}: reported distance {a_[0]} / projection {a_[3]}, spherical reference {rd_} / {rpi_}",
+                                             {'scale': scale, 'loc': list(loc), 'radius': r, 'edge': [list(g[a_[1]][0]), list(g[a_[2]][0])]}))
+                                break
                     xk = {(t[1], t[2]): t for t in xe_full}
                     for a_ in ge:
                         b_ = xk[(a_[1], a_[2])]
@@ -452,8 +463,17 @@ def case_C18(seed):
         r = 250.0 if use_latlon else (4.0 if abs(p0[0]) > 1e5 else 1.5)
         locs = [((p0[0], p0[1]), r)]
         sm, edges = build_sqlite(g, d, name='stored', use_latlon=use_latlon, how=how, **crs)
-        updated = [None, None, 'crs', 'metric', 'both'][seed % 5]
-        if updated:
+        updated = [None, None, 'crs', 'metric', 'both', None, 'there-and-back', 'both'][seed % 8]
+        if updated == 'there-and-back':
+            # a setting changed, saved, changed BACK and saved again: the reopened map must show the last saved values
+            old_crs = (sm.crs_lonlat, sm.crs_xy)
+            sm.crs_lonlat, sm.crs_xy = 'EPSG:4269', 'EPSG:28992'
+            sm.use_latlon = not use_latlon
+            sm.save_properties()
+            sm.crs_lonlat, sm.crs_xy = old_crs
+            sm.use_latlon = use_latlon
+            sm.save_properties()
+        elif updated:
             # settings changed after creation and saved again (the properties table then holds an older and a newer row per key)
             if updated in ('crs', 'both'):
                 sm.crs_lonlat, sm.crs_xy = 'EPSG:4269', 'EPSG:28992'
